@@ -12,8 +12,12 @@ import (
 	"flag"
 	"fmt"
 	"go/types"
+	"bufio"
+	"io"
 	"os"
+	"os/exec"
 	"path/filepath"
+	"runtime"
 	"sort"
 	"strings"
 	"sync"
@@ -39,6 +43,12 @@ type Config struct {
 	Trace        bool
 	Param        int
 	Bound        int
+	Par          int
+	WorkFile     string
+	SliceS       int
+	Serve        bool
+	batch        [][]Decision
+	RawArgs      []string
 	SolverKind   string
 	TimeoutMs    int
 	WallLimit    time.Duration
@@ -70,6 +80,8 @@ type EntryResult struct {
 	Preempts     int            `json:"max_preemptions"`
 	TimerFires   int            `json:"timer_fires"`
 	Abstractions int            `json:"abstractions"`
+	WorkerWalls  []float64      `json:"worker_walls,omitempty"`
+	Leftover     [][]Decision   `json:"leftover,omitempty"`
 }
 
 type Sample struct {
@@ -116,6 +128,10 @@ func cmdRun(mode string, args []string) int {
 	fs.IntVar(&cfg.MaxPaths, "max-paths", 200000, "paths per entry")
 	fs.BoolVar(&cfg.TimerPreempt, "timer-preempt", true, "timers may fire while threads are runnable")
 	fs.BoolVar(&cfg.Trace, "trace", false, "trace instructions")
+	fs.IntVar(&cfg.Par, "par", 1, "explore one entry with this many worker processes")
+	fs.IntVar(&cfg.SliceS, "slice", 25, "(internal) seconds a worker explores before handing back its remaining work")
+	fs.BoolVar(&cfg.Serve, "serve", false, "(internal) worker mode: batches of prefixes on stdin, results on stdout")
+	fs.StringVar(&cfg.WorkFile, "work-file", "", "(internal) explore only the decision prefixes listed in this file")
 	fs.IntVar(&cfg.Bound, "bound", 0, "value returned by verifBound() (tier-dependent size bound)")
 	fs.IntVar(&cfg.Param, "param", 0, "value returned by verifParam() (used to split an entry over processes)")
 	paramList := fs.String("params", "", "comma separated list of -param values, explored one after the other")
@@ -127,6 +143,7 @@ func cmdRun(mode string, args []string) int {
 	workers := fs.Int("workers", 1, "parallel entries")
 	tests := fs.Bool("tests", false, "load test files too")
 	fs.Parse(args)
+	cfg.RawArgs = args
 	cfg.WallLimit = time.Duration(*wall) * time.Second
 
 	t0 := time.Now()
@@ -136,6 +153,12 @@ func cmdRun(mode string, args []string) int {
 	}
 	loadS := time.Since(t0).Seconds()
 
+	if cfg.Serve {
+		c := cfg
+		c.Entry = entries[0]
+		serve(&c)
+		return 0
+	}
 	var results []*EntryResult
 	if mode == "pin" {
 		c := cfg
@@ -375,6 +398,18 @@ func explore(cfg *Config) *EntryResult {
 	}
 	defer sol.close()
 	work := [][]Decision{nil}
+	if cfg.WorkFile != "" {
+		b, err := os.ReadFile(cfg.WorkFile)
+		if err != nil || json.Unmarshal(b, &work) != nil {
+			res.Events = append(res.Events, "ENGINE: cannot read work file")
+			return res
+		}
+	}
+	if cfg.batch != nil {
+		work = cfg.batch
+	}
+	sliced := cfg.batch != nil || cfg.WorkFile != ""
+	splitting := cfg.Par > 1 && !sliced
 	reach := map[string]bool{}
 	seenViol := map[string]bool{}
 	evSeen := map[string]bool{}
@@ -390,8 +425,24 @@ func explore(cfg *Config) *EntryResult {
 			res.Exhaustive = false
 			break
 		}
-		prefix := work[len(work)-1]
-		work = work[:len(work)-1]
+		if sliced && time.Since(t0) > time.Duration(cfg.SliceS)*time.Second {
+			res.Leftover = work
+			break
+		}
+		if splitting && len(work) >= 60*cfg.Par {
+			exploreParallel(cfg, work, res, reach, seenViol, evSeen)
+			work = nil
+			break
+		}
+		var prefix []Decision
+		if splitting {
+			// breadth first while collecting a frontier to distribute
+			prefix = work[0]
+			work = work[1:]
+		} else {
+			prefix = work[len(work)-1]
+			work = work[:len(work)-1]
+		}
 		r := newRun(cfg, sol, prefix, nil)
 		r.execute(fn)
 		work = append(work, r.pending...)
@@ -442,11 +493,202 @@ func explore(cfg *Config) *EntryResult {
 		}
 	}
 	res.Reach = sortedKeys(reach)
-	res.Sat, res.Unsat, res.Unknown, res.SolverErrs = sol.nSat, sol.nUnsat, sol.nUnknown, sol.nErr
-	res.SolverTimeS = sol.solveTime.Seconds()
+	res.Sat += sol.nSat
+	res.Unsat += sol.nUnsat
+	res.Unknown += sol.nUnknown
+	res.SolverErrs += sol.nErr
+	res.SolverTimeS += sol.solveTime.Seconds()
 	res.WallS = time.Since(t0).Seconds()
 	sort.Slice(res.Violations, func(i, j int) bool { return res.Violations[i].Fp < res.Violations[j].Fp })
 	return res
+}
+
+// exploreParallel distributes the frontier dynamically over cfg.Par persistent
+// worker processes (each loads the program once) and merges their results.
+func exploreParallel(cfg *Config, work [][]Decision, res *EntryResult, reach, seenViol, evSeen map[string]bool) {
+	n := cfg.Par
+	var base []string
+	skip := map[string]bool{"-entry": true, "-params": true, "-param": true, "-out": true, "-par": true, "-work-file": true}
+	for i := 0; i < len(cfg.RawArgs); i++ {
+		a := cfg.RawArgs[i]
+		name := a
+		if k := strings.Index(a, "="); k >= 0 {
+			name = a[:k]
+		}
+		if strings.HasPrefix(name, "--") {
+			name = name[1:]
+		}
+		if skip[name] {
+			if !strings.Contains(a, "=") {
+				i++
+			}
+			continue
+		}
+		base = append(base, a)
+	}
+	type reply struct {
+		w   int
+		res *EntryResult
+		err error
+	}
+	type worker struct {
+		cmd *exec.Cmd
+		in  io.WriteCloser
+		out *bufio.Reader
+	}
+	workers := make([]*worker, n)
+	replies := make(chan reply, n)
+	for i := 0; i < n; i++ {
+		args := append([]string{"run"}, base...)
+		args = append(args, "-entry", cfg.Entry, "-param", fmt.Sprint(cfg.Param), "-serve")
+		cmd := exec.Command(os.Args[0], args...)
+		in, _ := cmd.StdinPipe()
+		outp, _ := cmd.StdoutPipe()
+		if err := cmd.Start(); err != nil {
+			res.Events = append(res.Events, "ENGINE: cannot start worker: "+err.Error())
+			res.Exhaustive = false
+			return
+		}
+		workers[i] = &worker{cmd: cmd, in: in, out: bufio.NewReaderSize(outp, 1<<20)}
+	}
+	defer func() {
+		for _, w := range workers {
+			w.in.Close()
+			w.cmd.Wait()
+		}
+	}()
+	send := func(i int, batch [][]Decision) {
+		b, _ := json.Marshal(batch)
+		go func() {
+			w := workers[i]
+			if _, err := w.in.Write(append(b, '\n')); err != nil {
+				replies <- reply{w: i, err: err}
+				return
+			}
+			line, err := w.out.ReadBytes('\n')
+			if err != nil {
+				replies <- reply{w: i, err: err}
+				return
+			}
+			var r EntryResult
+			if err := json.Unmarshal(line, &r); err != nil {
+				replies <- reply{w: i, err: err}
+				return
+			}
+			replies <- reply{w: i, res: &r}
+		}()
+	}
+	idle := make([]int, 0, n)
+	for i := 0; i < n; i++ {
+		idle = append(idle, i)
+	}
+	busy := 0
+	lost := 0
+	for len(work) > 0 || busy > 0 {
+		for len(work) > 0 && len(idle) > 0 {
+			k := len(work) / (2 * n)
+			if k < 1 {
+				k = 1
+			}
+			if k > 400 {
+				k = 400
+			}
+			batch := work[len(work)-k:]
+			work = work[:len(work)-k]
+			w := idle[len(idle)-1]
+			idle = idle[:len(idle)-1]
+			send(w, batch)
+			busy++
+		}
+		rp := <-replies
+		busy--
+		if rp.err != nil {
+			lost++
+			res.Events = append(res.Events, fmt.Sprintf("ENGINE: worker %d failed: %v", rp.w, rp.err))
+			res.Exhaustive = false
+			continue // worker is not reused
+		}
+		idle = append(idle, rp.w)
+		c := rp.res
+		work = append(work, c.Leftover...)
+		res.WorkerWalls = append(res.WorkerWalls, c.WallS)
+		res.Paths += c.Paths
+		res.Pruned += c.Pruned
+		res.Steps += c.Steps
+		res.Asserts += c.Asserts
+		res.Sat += c.Sat
+		res.Unsat += c.Unsat
+		res.Unknown += c.Unknown
+		res.SolverErrs += c.SolverErrs
+		res.SolverTimeS += c.SolverTimeS
+		res.TimerFires += c.TimerFires
+		res.Abstractions += c.Abstractions
+		if c.MaxDecisions > res.MaxDecisions {
+			res.MaxDecisions = c.MaxDecisions
+		}
+		if c.Threads > res.Threads {
+			res.Threads = c.Threads
+		}
+		if c.Preempts > res.Preempts {
+			res.Preempts = c.Preempts
+		}
+		if !c.Exhaustive {
+			res.Exhaustive = false
+		}
+		for f, k := range c.Funcs {
+			res.Funcs[f] += k
+		}
+		for f, k := range c.Stubs {
+			res.Stubs[f] += k
+		}
+		for _, l := range c.Reach {
+			reach[l] = true
+		}
+		for _, v := range c.Violations {
+			if !seenViol[v.Fp] {
+				seenViol[v.Fp] = true
+				res.Violations = append(res.Violations, v)
+			}
+		}
+		for _, e := range c.Events {
+			if !evSeen[e] && len(res.Events) < 50 {
+				evSeen[e] = true
+				res.Events = append(res.Events, e)
+			}
+		}
+		if len(res.Samples) < 5 {
+			res.Samples = append(res.Samples, c.Samples...)
+		}
+		if len(idle) == 0 && busy == 0 {
+			res.Events = append(res.Events, "ENGINE: all workers lost")
+			res.Exhaustive = false
+			return
+		}
+	}
+}
+
+// serve is the worker loop: read a batch of prefixes, explore for one time slice, reply.
+func serve(cfg *Config) {
+	runtime.GOMAXPROCS(1)
+	in := bufio.NewReaderSize(os.Stdin, 1<<20)
+	out := bufio.NewWriter(os.Stdout)
+	for {
+		line, err := in.ReadBytes('\n')
+		if err != nil {
+			return
+		}
+		var batch [][]Decision
+		if err := json.Unmarshal(line, &batch); err != nil {
+			return
+		}
+		c := *cfg
+		c.batch = batch
+		r := explore(&c)
+		b, _ := json.Marshal(r)
+		out.Write(b)
+		out.WriteByte('\n')
+		out.Flush()
+	}
 }
 
 func decString(ds []Decision) string {
